@@ -597,6 +597,72 @@ def field_run(ctx: Ctx, desc: dict) -> None:
             return
 
 
+NONFINITE = {"nan": NAN, "np_nan": np.float64("nan"), "inf": math.inf, "-inf": -math.inf, "np_inf": np.float64("inf")}
+
+
+def nonfinite_desc(rng) -> dict:
+    return {"role": rng.choice(["loss", "bs_refl", "bs_loss", "ps_loss"]),
+            "nest": rng.choice(["flat", "flat", "group", "ungrouped_add", "copy", "unpack", "nonadj"]),
+            "value": rng.choice(list(NONFINITE)), "valid_first": rng.choice([0.0, 0.25, 1.0]),
+            "read_first": rng.random() < 0.5}
+
+
+def nonfinite_run(ctx: Ctx, d: dict) -> None:
+    """clause 'a value that is invalid for its component surfaces as a compilation error when the circuit is
+    used', at the points outside the model's ordered domain (implementation only): a loss / reflectivity
+    Parameter that was valid when the component was added and is then moved to NaN / +-inf (Parameter.set accepts
+    them without bounds, and NaN even with bounds: F15) must make the next read of U / U_full raise, never
+    return a matrix with non-finite entries or one computed from the old value"""
+    par = lw.Parameter(d["valid_first"])
+    inner = lw.Circuit(3)
+    role = d["role"]
+    if role == "loss":
+        inner.loss(1, par)
+    elif role == "bs_refl":
+        inner.bs(0, 2, reflectivity=par)
+    elif role == "bs_loss":
+        inner.bs(0, 1, loss=par)
+    else:
+        inner.ps(2, 0.3, loss=par)
+    inner.bs(1, 2)
+    nest = d["nest"]
+    if nest == "group":
+        c = lw.Circuit(4)
+        c.add(inner, 1, group=True)
+    elif nest == "ungrouped_add":
+        c = lw.Circuit(4)
+        c.add(inner, 0, group=False)
+    elif nest == "copy":
+        c = inner.copy()
+    elif nest == "unpack":
+        c = lw.Circuit(4)
+        c.add(inner, 1, group=True)
+        c.unpack_groups()
+    elif nest == "nonadj":
+        c = inner
+        c.remove_non_adjacent_bs()
+    else:
+        c = inner
+    if d["read_first"]:
+        _ = c.U_full
+    try:
+        par.set(NONFINITE[d["value"]])
+    except Exception:  # noqa: BLE001
+        ctx.count("nonfinite:set_rejected")
+        return
+    for attr in ("U_full", "U"):
+        try:
+            u = np.array(getattr(c, attr))
+        except Exception:  # noqa: BLE001
+            ctx.count("nonfinite:raised_at_use")
+            continue
+        what = "a matrix with non-finite entries" if not np.all(np.isfinite(u)) else "a finite matrix (stale value?)"
+        ctx.violation(f"oracle[invalid_value_error]: a {role} Parameter set to {d['value']} after the component was added "
+                      f"({nest}): reading {attr} returned {what} instead of raising a compilation error",
+                      {"nonfinite_probe": d}, sig={"kind": "invalid_value_error", "nan_input": False})
+        return
+
+
 def probe_run(ctx: Ctx, steps: list, kind: str) -> None:
     p = None
     pd = None
@@ -937,7 +1003,11 @@ def run(ctx: Ctx) -> None:
         if len(ctx.violations) >= 8:
             ctx.notes.append("probe stream stopped early: 8 violations")
             break
-        if i % 3 == 0:
+        if i % 6 == 0:
+            d = nonfinite_desc(rng)
+            ctx.count("probe:nonfinite:" + d["role"])
+            nonfinite_run(ctx, d)
+        elif i % 3 == 0:
             probe(ctx, rng)
         elif i % 3 == 1:
             probe_numeric(ctx, rng)
@@ -952,6 +1022,10 @@ def replay(ctx: Ctx, path: str) -> None:
     if "field_probe" in rp:
         print("replay: field probe", rp["field_probe"])
         field_run(ctx, rp["field_probe"])
+        ctx.case("replay", True)
+        return
+    if "nonfinite_probe" in rp:
+        nonfinite_run(ctx, rp["nonfinite_probe"])
         ctx.case("replay", True)
         return
     if "probe" in rp:
